@@ -1,3 +1,5 @@
+import Varint.Bridge.Sizes
+import Varint.Lemmas.BP128
 import Varint.Lemmas.Dict
 import Varint.Lemmas.Elias
 import Varint.Lemmas.PFOR
@@ -121,6 +123,46 @@ theorem dict_build_spec (xs : List Nat) :
     ∀ x ∈ xs, ∃ i, Dict.find (Dict.build xs) x = some i ∧ i < (Dict.build xs).length ∧ (Dict.build xs)[i]? = some x :=
   ⟨Dict.build_pairwise xs, Dict.mem_build xs, Dict.build_length_le xs,
    fun x hx => Dict.find_mem _ (Dict.build_pairwise xs) x ((Dict.mem_build xs x).mpr hx)⟩
+
+
+/-! ## 128-block bit packing (scalar paths). The 32-bit and the delta forms carry no element count, so the
+    decoder is given the original count (or any capacity when the stream ends with a partial block);
+    the 64-bit form carries the count and accepts any capacity (smaller ⇒ the correct prefix). -/
+
+theorem bp128_32_roundtrip (xs : List Nat) (h : ∀ x ∈ xs, x < 2 ^ 32) (rest : List Nat) :
+    BP128.dec32 (BP128.enc32 xs ++ rest) xs.length = some xs ∧
+    ∀ cap, xs.length ≤ cap → xs.length % 128 ≠ 0 → BP128.dec32 (BP128.enc32 xs ++ rest) cap = some xs :=
+  ⟨BP128.dec32_enc32 xs h rest, fun cap hc hp => BP128.dec32_enc32_cap xs h cap hc hp rest⟩
+
+theorem bp128_64_roundtrip (xs : List Nat) (hne : xs ≠ []) (h : U64s xs) (hn : xs.length < 2 ^ 64) (cap : Nat)
+    (rest : List Nat) : BP128.dec64 (BP128.enc64 xs ++ rest) cap = some (xs.take cap) :=
+  BP128.dec64_enc64_take xs hne h hn cap rest
+
+theorem bp128_delta32_roundtrip (xs : List Nat) (hne : xs ≠ []) (h : ∀ x ∈ xs, x < 2 ^ 32) (rest : List Nat) :
+    BP128.decD32 (BP128.encD 32 xs ++ rest) xs.length = some xs :=
+  BP128.decD32_encD xs hne h rest
+
+theorem bp128_delta64_roundtrip (xs : List Nat) (hne : xs ≠ []) (h : U64s xs) (rest : List Nat) :
+    BP128.decD64 (BP128.encD 64 xs ++ rest) xs.length = some xs ∧
+    ∀ cap, cap ≤ xs.length → BP128.decD64 (BP128.encD 64 xs ++ rest) cap = some (xs.take cap) :=
+  ⟨BP128.decD64_encD xs hne h rest, fun cap hc => BP128.decD64_encD_prefix xs hne h cap hc rest⟩
+
+/-- the block bit width is the width of the block's maximum: every value fits, and it is 0 exactly for an
+    all-zero block -/
+theorem bp128_bitwidth (xs : List Nat) :
+    (∀ x ∈ xs, x < 2 ^ BP128.bitWidth xs) ∧ (BP128.bitWidth xs = 0 ↔ ∀ x ∈ xs, x = 0) ∧
+    ((∀ x ∈ xs, x < 2 ^ 64) → BP128.bitWidth xs ≤ 64) :=
+  ⟨BP128.lt_pow_bitWidth xs, BP128.bitWidth_eq_zero xs, BP128.bitWidth_le_64 xs⟩
+
+
+/-- zig-zag of the C ITSELF (shift/xor form, regenerated from varintDelta.h on every run): equal to the
+    model's map on every 64-bit pattern, hence a bijection with the decoder as inverse -/
+theorem c_zigzag_roundtrip (x : Nat) (hx : x < 2 ^ 64) :
+    Varint.Gen.C.deltaZigZag (toI64 x) = Delta.zz x ∧
+    Varint.Gen.C.deltaZigZagDecode (Varint.Gen.C.deltaZigZag (toI64 x)) = toI64 x := by
+  have h1 := Varint.Bridge.Sizes.deltaZigZag_eq x hx
+  refine ⟨h1, ?_⟩
+  rw [h1, Varint.Bridge.Sizes.deltaZigZagDecode_eq _ (Delta.zz_lt x hx), Delta.unzz_zz x hx]
 
 /-- non-vacuity -/
 example : FOR.Good [100, 200, 300] := ⟨by decide, by decide, by decide⟩
